@@ -163,11 +163,24 @@ Section Model.
   (* ---- histories of calls: UpdateFrom, UpdateFromConfigUpdate, the `changed` results, Config.Err ---- *)
   Variable veqb : V -> V -> bool.         (* SafeParamsEqual on field values *)
 
-  (* UpdateFrom(rawData, source)  |  UpdateFromConfigUpdate(msg): sourceToRawConfig is REPLACED by the message's
-     per-source raw config (empty values are NOT dropped on this path), then resolve() *)
-  Inductive upd := UFrom (s : N) (kvs : list (K * R)) | UAll (c : cfg).
-  Definition apply_upd (c : cfg) (u : upd) : cfg :=
-    match u with UFrom s kvs => store c s kvs | UAll c' => c' end.
+  (* The long-lived part of a Config between calls: sourceToRawConfig and internalOverrides.  (The fields, rawValues and
+     nameToSource are recomputed from scratch by every resolve(): applyDefaults() first.)
+       UFrom s kvs : UpdateFrom(rawData, source)
+       UAll msg    : UpdateFromConfigUpdate(msg): sourceToRawConfig is REPLACED by the message's per-source raw config
+                     (empty values are NOT dropped on this path)
+       UOver k v   : OverrideParam(name, value): internalOverrides[name] = value, then
+                     UpdateFrom(internalOverrides, InternalOverride)
+     each followed by resolve(). *)
+  Variable ov_src : N.                    (* InternalOverride *)
+  Inductive upd := UFrom (s : N) (kvs : list (K * R)) | UAll (c : cfg) | UOver (k : K) (v : R).
+  Definition hst := (cfg * list (K * R))%type.
+  Definition apply_upd (h : hst) (u : upd) : hst :=
+    match u with
+    | UFrom s kvs => (store (fst h) s kvs, snd h)
+    | UAll c' => (c', snd h)
+    | UOver k v => let ov := aset keqb k v (snd h) in (store (fst h) ov_src ov, ov)
+    end.
+  Definition final_hst (h : hst) (us : list upd) : hst := fold_left apply_upd us h.
 
   Definition add_key (k : K) (l : list K) : list K := if existsb (keqb k) l then l else k :: l.
   Fixpoint insert_key (k : K) (l : list K) : list K :=
@@ -195,19 +208,20 @@ Section Model.
   }.
   Definition res_err (r : option rst) : bool := match r with None => true | Some _ => false end.
 
-  Fixpoint run_calls (fixed sorted : bool) (c : cfg) (prev : option rst) (cerr : bool) (us : list upd) : list call :=
+  Fixpoint run_calls (fixed sorted : bool) (h : hst) (prev : option rst) (cerr : bool) (us : list upd) : list call :=
     match us with
     | [] => []
     | u :: t =>
-        let c' := apply_upd c u in
-        let r := resolve fixed sorted c' in
+        let h' := apply_upd h u in
+        let r := resolve fixed sorted (fst h') in
         let err := res_err r in
         let ch := match prev, r with Some p, Some st => Some (changed_names p st) | _, _ => None end in
-        mk_call err (cerr || err) ch r :: run_calls fixed sorted c' r (cerr || err) t
+        mk_call err (cerr || err) ch r :: run_calls fixed sorted h' r (cerr || err) t
     end.
-  (* a fresh Config (config.New()): no raw config, the defaults, Err = nil *)
+  (* a fresh Config (config.New()): no raw config, no overrides, the defaults, Err = nil *)
+  Definition hst0 : hst := ([], []).
   Definition run_history (fixed sorted : bool) (us : list upd) : list call :=
-    run_calls fixed sorted [] (Some rst0) false us.
+    run_calls fixed sorted hst0 (Some rst0) false us.
 End Model.
 
 (* ---------------------------------------------------------------------------------------------------------
